@@ -6,6 +6,7 @@ import (
 	"context"
 	"fmt"
 	"reflect"
+	"sort"
 	"sync"
 
 	ebuotel "github.com/jilio/ebu/otel"
@@ -139,6 +140,37 @@ func RunOTel(c *Case) *vkit.Outcome {
 				errPersist++
 			}
 		}
+	}
+	// handler spans hang under the publish span of the event they handled:
+	// the numbers of handler children per publish span are the numbers of
+	// handler invocations per published event (compared as multisets, the
+	// spans carry no event id)
+	children := map[trace.SpanID]int{}
+	for id := range publishSpans {
+		children[id] = 0
+	}
+	for _, s := range ended {
+		if name := s.Name(); len(name) >= 16 && name[:16] == "eventbus.handler" {
+			children[s.Parent().SpanID()]++
+		}
+	}
+	var gotKids, wantKids []int
+	for _, n := range children {
+		gotKids = append(gotKids, n)
+	}
+	tr.perMu.Lock()
+	for _, n := range tr.perEvent {
+		wantKids = append(wantKids, n)
+	}
+	tr.perMu.Unlock()
+	for len(wantKids) < tr.publishes {
+		wantKids = append(wantKids, 0)
+	}
+	sort.Ints(gotKids)
+	sort.Ints(wantKids)
+	if fmt.Sprint(gotKids) != fmt.Sprint(wantKids) && nPub == tr.publishes {
+		o.Failf("", "handler spans per publish span %v, handler invocations per published event %v: handler spans must be children of their own publish span", gotKids, wantKids)
+		return o
 	}
 	check := func(what string, got, want int) {
 		if got != want {
